@@ -161,6 +161,48 @@ fn find_rel_sets() {
             }
         }}
     }
+    // ---- the laws the property itself states for sets (not taken from the code): converse pairs, symmetry, what equality
+    //      implies, negation as complement, and singleton sets behaving as their single member (unmodified operators)
+    let known = known_keys("find_rel_sets");
+    let plain = |name: &str, negate: bool| -> TextSelectionOperator { match name {
+        "EQUALS" => TextSelectionOperator::Equals { all: false, negate }, "OVERLAPS" => TextSelectionOperator::Overlaps { all: false, negate },
+        "EMBEDS" => TextSelectionOperator::Embeds { all: false, negate }, "EMBEDDED" => TextSelectionOperator::Embedded { all: false, negate, limit: None },
+        "BEFORE" => TextSelectionOperator::Before { all: false, negate, limit: None }, "AFTER" => TextSelectionOperator::After { all: false, negate, limit: None },
+        "PRECEDES" => TextSelectionOperator::Precedes { all: false, negate, allow_whitespace: false }, "SUCCEEDS" => TextSelectionOperator::Succeeds { all: false, negate, allow_whitespace: false },
+        "SAMEBEGIN" => TextSelectionOperator::SameBegin { all: false, negate }, _ => TextSelectionOperator::SameEnd { all: false, negate } } };
+    let show = |l: &Vec<TextSelection>| format!("{:?}", l.iter().map(|t| (t.begin, t.end)).collect::<Vec<_>>());
+    let names = ["EQUALS", "OVERLAPS", "EMBEDS", "EMBEDDED", "BEFORE", "AFTER", "PRECEDES", "SUCCEEDS", "SAMEBEGIN", "SAMEEND"];
+    let mut problems: Vec<(String, String)> = vec![];
+    let mut add = |key: String, what: String| { if !problems.iter().any(|(k, _)| *k == key) { problems.push((key, what)); } };
+    for xs in &lists { for bs in &lists {
+        let (x, b) = (mk(xs, false), mk(bs, false));
+        let t = |n: &str, neg: bool, p: &TextSelectionSet, q: &TextSelectionSet| p.test_set(&plain(n, neg), q, resource);
+        for (o, c) in [("EMBEDS", "EMBEDDED"), ("BEFORE", "AFTER"), ("PRECEDES", "SUCCEEDS")] {
+            if t(o, false, &x, &b) != t(c, false, &b, &x) { add(format!("on sets {} is not the converse of {}", o, c), format!("A={} B={}: A {} B is {}, B {} A is {}", show(xs), show(bs), o, t(o, false, &x, &b), c, t(c, false, &b, &x))); }
+        }
+        for o in ["EQUALS", "OVERLAPS"] {
+            if t(o, false, &x, &b) != t(o, false, &b, &x) { add(format!("on sets {} is not symmetric", o), format!("A={} B={}: A {} B is {}, B {} A is {}", show(xs), show(bs), o, t(o, false, &x, &b), o, t(o, false, &b, &x))); }
+        }
+        if t("EQUALS", false, &x, &b) { for o in ["EMBEDS", "EMBEDDED", "SAMEBEGIN", "SAMEEND"] {
+            if !t(o, false, &x, &b) { add(format!("on sets EQUALS does not imply {}", o), format!("A={} B={}: A EQUALS B but not A {} B", show(xs), show(bs), o)); }
+        }}
+        for o in names {
+            if t(o, true, &x, &b) == t(o, false, &x, &b) { add(format!("on sets NOT {} is not the complement of {}", o, o), format!("A={} B={}: both are {}", show(xs), show(bs), t(o, false, &x, &b))); }
+            if xs.len() == 1 {
+                let single = xs[0].test_set(&plain(o, false), &b, resource);
+                if single != t(o, false, &x, &b) { add(format!("a single selection and its singleton set disagree under {} against a set", o), format!("a={} B={}: a {} B is {}, {{a}} {} B is {}", show(xs), show(bs), o, single, o, t(o, false, &x, &b))); }
+                if bs.len() == 1 && t(o, false, &x, &b) != xs[0].test(&plain(o, false), &bs[0], resource) { add(format!("singleton sets disagree with their members under {}", o), format!("a={} b={}", show(xs), show(bs))); }
+            }
+            if bs.len() == 1 {
+                let single = x.test(&plain(o, false), &bs[0], resource);
+                if single != t(o, false, &x, &b) { add(format!("a set against a single selection and against its singleton set disagree under {}", o), format!("A={} b={}: A {} b is {}, A {} {{b}} is {}", show(xs), show(bs), o, single, o, t(o, false, &x, &b))); }
+            }
+        }
+    }}
+    if std::env::var("VX_LIST_PROBLEMS").is_ok() { for (k, w) in &problems { println!("PROBLEM {} :: {}", k, w); } }
+    for (key, what) in problems {
+        if known.contains(&key) { println!("KNOWN {}", key); } else { println!("WITNESS {{\"clause\":\"laws of the relation tests on sets\",\"problem\":{:?},\"observed\":{:?}}}", key, what); return; }
+    }
     println!("NO-WITNESS find_rel_sets");
 }
 
@@ -237,12 +279,12 @@ fn find_related_text() {
     // the equality relation: from a known selection it returns that selection itself; from a set all its members when every member
     // is known, and nothing otherwise - whatever the order of the members (the shortcut that does not walk the index)
     let unknown: Vec<(usize, usize)> = { let mut v = vec![]; for b in 0..=n { for e in b..=n { if !known.contains(&(b, e)) { v.push((b, e)); } } } v };
-    let eq = TextSelectionOperator::equals();
+    for eq in [TextSelectionOperator::Equals { all: false, negate: false }, TextSelectionOperator::Equals { all: true, negate: false }] {
     for (b, e) in known.iter().chain(unknown.iter()) {
         let reference = resource.textselection(&Offset::simple(*b, *e)).unwrap();
         let got: Vec<(usize, usize)> = reference.related_text(eq).map(|t| (t.begin(), t.end())).collect();
         let want: Vec<(usize, usize)> = if known.contains(&(*b, *e)) { vec![(*b, *e)] } else { vec![] };
-        if got != want { println!("WITNESS {{\"clause\":\"next_textselection/equals\",\"reference\":[{},{}],\"search_returns\":\"{:?}\",\"want\":\"{:?}\"}}", b, e, got, want); return; }
+        if got != want { println!("WITNESS {{\"clause\":\"next_textselection/equals\",\"operator\":\"{:?}\",\"reference\":[{},{}],\"search_returns\":\"{:?}\",\"want\":\"{:?}\"}}", eq, b, e, got, want); return; }
     }
     let pool: Vec<(usize, usize)> = known.iter().step_by(7).take(4).cloned().chain(unknown.iter().take(2).cloned()).collect();
     for i in 0..pool.len() { for j in 0..pool.len() { for k in 0..pool.len() {
@@ -253,7 +295,7 @@ fn find_related_text() {
         let mut got: Vec<(usize, usize)> = set.as_resultset(&store).related_text(eq).map(|t| (t.begin(), t.end())).collect();
         let mut want: Vec<(usize, usize)> = if members.iter().all(|m| known.contains(m)) { members.to_vec() } else { vec![] };
         got.sort(); want.sort();
-        if got != want { println!("WITNESS {{\"clause\":\"next_textselection/equals\",\"reference_set\":\"{:?}\",\"search_returns\":\"{:?}\",\"want\":\"{:?}\"}}", members, got, want); return; }
+        if got != want { println!("WITNESS {{\"clause\":\"next_textselection/equals\",\"operator\":\"{:?}\",\"reference_set\":\"{:?}\",\"search_returns\":\"{:?}\",\"want\":\"{:?}\"}}", eq, members, got, want); return; }
     }}}
     // the same from a store whose selections were created in every order (the lookup walks a list in creation order)
     let trio = [(2usize, 9usize), (2, 5), (2, 7)];
@@ -266,6 +308,7 @@ fn find_related_text() {
             let want: Vec<(usize, usize)> = if trio.contains(&(*b, *e)) { vec![(*b, *e)] } else { vec![] };
             if got != want { println!("WITNESS {{\"clause\":\"known_textselection\",\"created_in_order\":\"{:?}\",\"reference\":[{},{}],\"search_returns\":\"{:?}\",\"want\":\"{:?}\"}}", perm.iter().map(|i| trio[*i]).collect::<Vec<_>>(), b, e, got, want); return; }
         }
+    }
     }
     println!("NO-WITNESS find_related_text");
 }
@@ -403,6 +446,35 @@ fn find_id_lookups() {
             if report("resolve_annotation_id", got.0, wa) || report("annotation", got.1, wa) || report("resolve_resource_id", got.2, wr)
                 || report("resource", got.3, wr) || report("resolve_dataset_id", got.4, ws) || report("dataset", got.5, ws) { return; }
         }
+    }
+    // ---- a temporary identifier inside a document names an item of that document: merging the document into a store
+    //      that already holds items must not redirect it to whatever sits at that position in the receiving store
+    let known = known_keys("find_id_lookups");
+    let doc = r#"{"@type":"AnnotationStore","resources":[{"@type":"TextResource","@id":"r9","text":"Goodbye moon"}],
+        "annotationsets":[{"@type":"AnnotationDataSet","@id":"s9","keys":[{"@type":"DataKey","@id":"k"}],"data":[]}],
+        "annotations":[
+          {"@type":"Annotation","@id":"!A0","target":{"@type":"TextSelector","resource":"r9","offset":{"@type":"Offset","begin":{"@type":"BeginAlignedCursor","value":8},"end":{"@type":"BeginAlignedCursor","value":12}}},
+           "data":[{"@type":"AnnotationData","@id":"x1","set":"s9","key":"k","value":{"@type":"String","value":"v"}}]},
+          {"@type":"Annotation","@id":"!A1","target":{"@type":"AnnotationSelector","annotation":"!A0"},
+           "data":[{"@type":"AnnotationData","@id":"x2","set":"s9","key":"k","value":{"@type":"String","value":"w"}}]}]}"#;
+    let pointed_at = |store: &AnnotationStore| -> Vec<Option<String>> {
+        match store.annotationdata("s9", "x2").and_then(|d| d.annotations().next()) {
+            Some(a) => a.annotations_in_targets(Default::default()).map(|t| t.text_simple().map(|x| x.to_string())).collect(),
+            None => vec![] } };
+    let alone = AnnotationStore::from_str(doc, Config::default()).map(|s| pointed_at(&s));
+    let mut receiving = AnnotationStore::default()
+        .with_resource(TextResourceBuilder::new().with_id("r0").with_text("Hello world")).unwrap()
+        .with_dataset(AnnotationDataSetBuilder::new().with_id("s0")).unwrap();
+    receiving.annotate(AnnotationBuilder::new().with_id("a0").with_target(SelectorBuilder::textselector("r0", Offset::simple(0, 5))).with_data("s0", "pos", "interj")).unwrap();
+    let merged = std::panic::catch_unwind(std::panic::AssertUnwindSafe(|| receiving.merge_json_str(doc).map(|_| pointed_at(&receiving))));
+    let problem = match (&alone, &merged) {
+        (_, Err(_)) => Some("merge_json_str panicked".to_string()),
+        (Ok(a), Ok(Ok(m))) if a != m => Some(format!("loaded alone the annotation with data x2 points at the annotation on {:?}; merged into a store that already has one annotation it points at {:?}", a, m)),
+        _ => None,   // same answer, or the merge is refused
+    };
+    if let Some(p) = problem {
+        let key = "temporary ids of a merged document denote positions of the receiving store".to_string();
+        if known.contains(&key) { println!("KNOWN {}", key); } else { println!("WITNESS {{\"clause\":\"temporary identifiers are not redirected\",\"problem\":{:?},\"observed\":{:?}}}", key, p); return; }
     }
     println!("NO-WITNESS find_id_lookups");
 }
@@ -660,6 +732,53 @@ fn find_store_consistency() {
         }
     }
     println!("NO-WITNESS find_store_consistency");
+}
+
+/// C02 under non-default configurations: each reverse index can be switched off in `Config`; a removal must still take
+/// the dependants with it (the survivors are those of the default configuration) and leave no target that does not resolve
+#[test]
+fn find_removal_without_index() {
+    let known = known_keys("find_removal_without_index");
+    let cfgs: Vec<(&str, Box<dyn Fn() -> Config>)> = vec![
+        ("annotation_annotation_map", Box::new(|| Config::default().with_annotation_annotation_map(false))),
+        ("resource_annotation_metamap", Box::new(|| Config::default().with_resource_annotation_map(false))),
+        ("textrelationmap", Box::new(|| Config::default().with_textrelationmap(false))),
+        ("dataset_annotation_metamap", Box::new(|| Config::default().with_dataset_annotation_map(false))),
+        ("key_annotation_metamap", Box::new(|| Config::default().with_key_annotation_metamap(false))),
+        ("data_annotation_metamap", Box::new(|| Config::default().with_data_annotation_metamap(false))),
+    ];
+    let ops: [(&str, usize); 8] = [("remove_annotation A1", 0), ("remove_annotation A3", 1), ("remove_resource r0", 2), ("remove_resource r1", 3), ("remove_dataset d0", 4), ("remove_dataset d1", 5), ("remove_key d0/k1 strict", 6), ("remove_data d0/k2=n strict", 7)];
+    let run = |cfg: Config, op: usize| -> Result<(Vec<String>, Option<String>), String> {
+        std::panic::catch_unwind(std::panic::AssertUnwindSafe(|| {
+            let mut store = consistency_base(cfg);
+            let res = match op {
+                0 => store.remove_annotation("A1"), 1 => store.remove_annotation("A3"),
+                2 => store.remove_resource("r0"), 3 => store.remove_resource("r1"),
+                4 => store.remove_dataset("d0"), 5 => store.remove_dataset("d1"),
+                6 => { let s = store.dataset("d0").unwrap().handle(); let k = store.dataset("d0").unwrap().key("k1").unwrap().handle(); store.remove_key(s, k, true) }
+                _ => { let s = store.dataset("d0").unwrap().handle(); let d = store.dataset("d0").unwrap().key("k2").unwrap().data().next().unwrap().handle(); store.remove_data(s, d, true) }
+            };
+            if let Err(e) = res { return (vec![format!("removal failed: {:?}", e)], None); }
+            let survivors: Vec<String> = store.annotations.iter().flatten().map(|a| a.id().unwrap_or("?").to_string()).collect();
+            (survivors, store_inconsistency(&store))
+        })).map_err(|_| "panic".to_string())
+    };
+    let mut problems: Vec<(String, String)> = vec![];
+    for (cname, mk) in &cfgs { for (oname, op) in ops {
+        let want = run(Config::default(), op).expect("default configuration");
+        match run(mk(), op) {
+            Err(p) => problems.push((format!("removal does not cascade with {} switched off", cname), format!("{}: {}", oname, p))),
+            Ok((survivors, dangling)) => if survivors != want.0 || dangling.is_some() {
+                problems.push((format!("removal does not cascade with {} switched off", cname), format!("{}: survivors {:?}, with the default configuration {:?}; {}", oname, survivors, want.0, dangling.unwrap_or_default())));
+            }
+        }
+    }}
+    let mut seen: Vec<String> = vec![];
+    for (key, what) in problems {
+        if known.contains(&key) { if !seen.contains(&key) { println!("KNOWN {}", key); seen.push(key); } }
+        else { println!("WITNESS {{\"clause\":\"removal under a non-default configuration\",\"problem\":{:?},\"observed\":{:?}}}", key, what); return; }
+    }
+    println!("NO-WITNESS find_removal_without_index");
 }
 
 /// the promises of the reverse lookups (C01: "where the API promises chronological or duplicate-free results, that promise holds too"):
@@ -1288,6 +1407,40 @@ fn find_annotate_failures() {
         if let Some(p) = problem {
             if known.iter().any(|k| k == name) { println!("KNOWN {}", name); }
             else { println!("WITNESS {{\"clause\":\"a failing annotate() leaves the store unchanged\",\"call\":{:?},\"problem\":{:?}}}", name, p); return; }
+        }
+    }
+    // ---- additions other than annotate(): merging documents and sub stores (C14: "or while loading annotations from a file")
+    let bad_store = r#"{"@type":"AnnotationStore","annotations":[
+        {"@type":"Annotation","@id":"M1","target":{"@type":"TextSelector","resource":"r","offset":{"begin":{"@type":"BeginAlignedCursor","value":6},"end":{"@type":"BeginAlignedCursor","value":11}}},"data":[{"@type":"AnnotationData","set":"d","key":"k","value":{"@type":"String","value":"merged"}}]},
+        {"@type":"Annotation","@id":"M2","target":{"@type":"ResourceSelector","resource":"nonexistent"},"data":[]}]}"#;
+    let only_bad = r#"{"@type":"AnnotationStore","annotations":[{"@type":"Annotation","@id":"M2","target":{"@type":"ResourceSelector","resource":"nonexistent"},"data":[]}]}"#;
+    let bad_set = r#"{"@type":"AnnotationDataSet","keys":[{"@type":"DataKey","@id":"k9"}],"data":[{"@type":"AnnotationData","@id":"d9","key":"k9","value":{"@type":"String","value":"x"}},{"@type":"AnnotationData","@id":"d10"}]}"#;
+    let cases2: Vec<(&str, Box<dyn Fn(&mut AnnotationStore) -> Result<(), StamError>>)> = vec![
+        ("merge_json_str whose only annotation is broken", Box::new(move |s: &mut AnnotationStore| s.merge_json_str(only_bad))),
+        ("merge_json_str failing at the second annotation keeps the first", Box::new(move |s: &mut AnnotationStore| s.merge_json_str(bad_store))),
+        ("dataset merge_json_str failing at the second data item keeps the first", Box::new(move |s: &mut AnnotationStore| { let h = s.dataset("d").unwrap().handle(); let ds: &mut AnnotationDataSet = s.get_mut(h).unwrap(); ds.merge_json_str(bad_set) })),
+        ("add_substore of a missing file", Box::new(|s: &mut AnnotationStore| s.add_substore("/nonexistent/vx_missing.store.stam.json").map(|_| ()))),
+        ("merge_json_str including a missing store file", Box::new(|s: &mut AnnotationStore| s.merge_json_str(r#"{"@type":"AnnotationStore","@include":"/nonexistent/vx_missing.store.stam.json"}"#))),
+    ];
+    for (name, call) in &cases2 {
+        let mut store = build();
+        let before = format!("{} substores={} filename={:?}", snapshot(&store), store.substores().count(), store.filename());
+        let r = std::panic::catch_unwind(std::panic::AssertUnwindSafe(|| call(&mut store)));
+        let problem = match r {
+            Err(_) => Some("panic".to_string()),
+            Ok(Ok(_)) => None,
+            Ok(Err(_)) => {
+                let after = format!("{} substores={} filename={:?}", snapshot(&store), store.substores().count(), store.filename());
+                if after != before { Some(format!("before: {} / after: {}", before, after)) }
+                // the store still refuses what it refused before (merge mode switched off again), and a later addition goes where it went before
+                else if store.add_dataset(AnnotationDataSetBuilder::new().with_id("d").with_key("zz")).is_ok() { Some("after the failed call add_dataset() with the id of an existing dataset is accepted (merged) instead of refused".to_string()) }
+                else if store.add_resource(TextResourceBuilder::new().with_id("r2").with_text("x")).map(|h| store.resource(h).unwrap().substores().count()).unwrap_or(0) != 0 { Some("a resource added after the failed call is assigned to a sub store".to_string()) }
+                else { None }
+            }
+        };
+        if let Some(p) = problem {
+            if known.iter().any(|k| k == name) { println!("KNOWN {}", name); }
+            else { println!("WITNESS {{\"clause\":\"a failing addition leaves the store unchanged\",\"call\":{:?},\"problem\":{:?}}}", name, p); return; }
         }
     }
     println!("NO-WITNESS find_annotate_failures");
